@@ -243,15 +243,17 @@ def direction_b(ck, pid):
         raise MachineryError("no operator traces recorded")
     tf = os.path.join(ck.tmp, "interp_traces.json")
     cfg = write_cfg(os.path.join(ck.tmp, "interp_trace.cfg"), spec="Spec", invariants=["StackDepthAgrees"], deadlock=True)
-    todo = recs
+    from ..core import batches
     rejected = 0
-    while todo:
+    queue = batches(recs, lambda r: len(r["events"]) + 2)
+    while queue:
+        todo = queue.pop(0)
         json.dump(todo, open(tf, "w"))
         res = run_tlc(TRACE_SPEC, cfg, workers=1, env={"TRACE_FILE": tf}, timeout=3600, heap="8g")
         ck.add_tlc(res, "validation of %d recorded operator traces" % len(todo))
         if res.ok:
             ck.traces += len(todo)
-            break
+            continue
         if not res.error_trace:
             raise MachineryError("trace validation failed unexpectedly: " + res.error_text[:2000])
         st = res.error_trace[-1][1]
@@ -264,7 +266,8 @@ def direction_b(ck, pid):
         ck.violation("operator-trace-rejected:" + (ev["op"] if ev else "?"),
                      "%s: operator #%d %r is not a step the interpreter specification allows (state before: %r)" % (tr["label"], e, ev, prev),
                      {"program": tr["label"].encode(), "property": pid, "event": ev, "before": prev})
-        todo = todo[t:]
+        if todo[t:]:
+            queue.insert(0, todo[t:])
         if rejected >= 3:
             break
     ck.extra["operator_events_validated"] = sum(len(r["events"]) for r in recs)
